@@ -27,6 +27,16 @@ type streamHandler struct {
 
 // writePacket writes a packet.
 func (s *streamHandler) writePacket(pkt *Packet) {
+	if s.ctx == nil {
+		// the session was registered by AddPeerStream but not yet started by
+		// Execute, which sets ctx and queues the initial subscription set (both
+		// under m.mtx, like the caller): nothing drains the queue yet, so queue
+		// the packet only if that leaves room for the initial set; never block.
+		if len(s.packetCh) < cap(s.packetCh)-1 {
+			s.packetCh <- pkt
+		}
+		return
+	}
 	select {
 	case s.packetCh <- pkt:
 	case <-s.ctx.Done():
